@@ -1,21 +1,399 @@
 package main
 
-// Concurrency mode (C13): filled in by threads_impl; sequential runs have ex.thr == nil.
+// Concurrency mode (C13). Threads are first-class in the path state: a `go` statement creates a thread
+// with its own frame stack, the heap is shared. A thread runs until its next scheduling point (mutex
+// lock / unlock, go, close, channel receive, select, WaitGroup wait, thread exit, the blocking
+// environment call (*http.Client).Do, verifnd.Yield); at every scheduling point with more than one
+// enabled thread the scheduler's choice is a decision of the path (Exec.Choose), so the traversal of
+// schedules is exhaustive within the preemption bound and every counterexample carries its schedule.
+// All data stay symbolic and are decided by the solver per schedule prefix.
+//
+// Implementation: each symbolic thread is a host goroutine; exactly one runs at a time (baton passing),
+// so the executor's state needs no locking.
 
 import (
+	"fmt"
 	"go/types"
 
 	"golang.org/x/tools/go/ssa"
 )
 
-type threads struct{}
+type threadKilled struct{}
 
-func newThreads(ex *Exec) *threads { panic(engineErr("concurrency mode not built yet")) }
-func (t *threads) maybeYield(ex *Exec)                                  {}
-func (t *threads) spawn(ex *Exec, fv Value, args []Value)               {}
-func (t *threads) doSelect(ex *Exec, fr *Frame, i *ssa.Select) Value    { return nil }
-func (t *threads) recv(ex *Exec, ch *ChanV, commaOk bool, typ types.Type) Value { return nil }
-func (t *threads) syncPoint(ex *Exec, what string)                      {}
-func (t *threads) access(ex *Exec, o *Object, write bool)               {}
-func (t *threads) holdsInstanceLock(ex *Exec) bool                      { return false }
-func (t *threads) runMain(ex *Exec, fn *ssa.Function)                   {}
+type thread struct {
+	id      int
+	resume  chan bool // true: run, false: die
+	parked  chan struct{}
+	done    bool
+	started bool
+	enabled func() bool
+	stack   []*Frame
+	depth   int
+	err     interface{}
+	what    string
+}
+
+type threads struct {
+	ts          []*thread
+	cur         *thread
+	locks       map[string]int // mutex identity -> owning thread id
+	preemptions int
+	maxPreempt  int
+	points      int
+	maxPoints   int
+	switches    int
+}
+
+func newThreads(ex *Exec) *threads {
+	t := &threads{locks: map[string]int{}, maxPreempt: 2, maxPoints: 400}
+	if v, ok := ex.run.params["preemptions"]; ok {
+		t.maxPreempt = v
+	}
+	if v, ok := ex.run.params["maxpoints"]; ok {
+		t.maxPoints = v
+	}
+	return t
+}
+
+func (t *threads) newThread(ex *Exec, body func()) *thread {
+	th := &thread{id: len(t.ts), resume: make(chan bool), parked: make(chan struct{}), enabled: func() bool { return true }}
+	t.ts = append(t.ts, th)
+	go func() {
+		if ok := <-th.resume; !ok {
+			th.done = true
+			th.parked <- struct{}{}
+			return
+		}
+		th.started = true
+		defer func() {
+			if r := recover(); r != nil {
+				if _, killed := r.(threadKilled); !killed {
+					th.err = r
+				}
+			}
+			th.done = true
+			th.parked <- struct{}{}
+		}()
+		body()
+	}()
+	return th
+}
+
+// yield parks the current thread until the scheduler resumes it; enabled tells when it may run again.
+func (t *threads) yield(ex *Exec, enabled func() bool, what string) {
+	th := t.cur
+	th.enabled = enabled
+	th.what = what
+	th.stack, th.depth = ex.stack, ex.depth
+	th.parked <- struct{}{}
+	ok := <-th.resume
+	ex.stack, ex.depth = th.stack, th.depth
+	if !ok {
+		panic(threadKilled{})
+	}
+	th.enabled = func() bool { return true }
+}
+
+func always() bool { return true }
+
+// syncPoint: a scheduling point at which the current thread stays enabled (a possible preemption).
+func (t *threads) syncPoint(ex *Exec, what string) {
+	if t.cur == nil {
+		return
+	}
+	t.yield(ex, always, what)
+}
+
+func (t *threads) maybeYield(ex *Exec) {}
+
+func (t *threads) spawn(ex *Exec, fv Value, args []Value) {
+	t.newThread(ex, func() {
+		ex.stack, ex.depth = nil, 0
+		ex.callValue(fv, args)
+	})
+	t.syncPoint(ex, "go")
+}
+
+func (t *threads) killAll() {
+	for _, th := range t.ts {
+		if !th.done {
+			th.resume <- false
+			<-th.parked
+		}
+	}
+}
+
+// runMain runs the harness as thread 0 and schedules until every thread has finished.
+func (t *threads) runMain(ex *Exec, fn *ssa.Function) {
+	main := t.newThread(ex, func() {
+		ex.stack, ex.depth = nil, 0
+		ex.callFunction(fn, nil, nil)
+	})
+	_ = main
+	var last *thread
+	for {
+		var en []*thread
+		alive := 0
+		for _, th := range t.ts {
+			if th.done {
+				continue
+			}
+			alive++
+			if th.enabled() {
+				en = append(en, th)
+			}
+		}
+		if alive == 0 {
+			return
+		}
+		if len(en) == 0 {
+			// no thread can move
+			var who []string
+			for _, th := range t.ts {
+				if !th.done {
+					who = append(who, fmt.Sprintf("thread %d blocked in %s", th.id, th.what))
+				}
+			}
+			func() {
+				defer func() {
+					r := recover()
+					t.killAll()
+					if r != nil {
+						panic(r)
+					}
+				}()
+				ex.Oblige("deadlock", "some thread can always move ("+fmt.Sprint(who)+")", tFalse)
+			}()
+			return
+		}
+		t.points++
+		if t.points > t.maxPoints {
+			t.killAll()
+			ex.run.inconclusive("unwind", fmt.Sprintf("more than %d scheduling points on one path", t.maxPoints))
+			panic(pathEnd{"unwind"})
+		}
+		// candidates: the thread that ran last goes on without a choice once the preemption budget is spent
+		pick := en[0]
+		if len(en) > 1 {
+			lastEnabled := false
+			for _, th := range en {
+				if th == last {
+					lastEnabled = true
+				}
+			}
+			if lastEnabled && t.preemptions >= t.maxPreempt {
+				pick = last
+			} else {
+				func() {
+					defer func() {
+						if r := recover(); r != nil {
+							t.killAll()
+							panic(r)
+						}
+					}()
+					k := ex.Choose(len(en))
+					pick = en[k]
+				}()
+				ex.choices = append(ex.choices, ChoiceRec{Tag: fmt.Sprintf("sched%d", t.switches), V: pick.id})
+				t.switches++
+				if lastEnabled && pick != last {
+					t.preemptions++
+				}
+			}
+		}
+		t.cur = pick
+		last = pick
+		ex.stack, ex.depth = pick.stack, pick.depth
+		pick.resume <- true
+		<-pick.parked
+		if pick.err != nil {
+			err := pick.err
+			t.killAll()
+			panic(err)
+		}
+	}
+}
+
+// ---- channels
+
+func (t *threads) chanReady(ex *Exec, ch *ChanV) bool {
+	if ch == nil {
+		return false
+	}
+	if ch.Closed {
+		return true
+	}
+	if ch.Ctx != nil && ex.ctxCancelled(ch.Ctx) {
+		return true
+	}
+	return false
+}
+
+func (t *threads) recv(ex *Exec, ch *ChanV, commaOk bool, typ types.Type) Value {
+	if !t.chanReady(ex, ch) {
+		t.yield(ex, func() bool { return t.chanReady(ex, ch) }, "channel receive")
+	}
+	if commaOk {
+		tup := typ.(*types.Tuple)
+		return Tuple{zeroValue(tup.At(0).Type()), tFalse}
+	}
+	return zeroValue(typ)
+}
+
+func (t *threads) doSelect(ex *Exec, fr *Frame, i *ssa.Select) Value {
+	var chans []*ChanV
+	for _, st := range i.States {
+		if st.Dir != types.RecvOnly {
+			panic(engineErr("select with a send case is not modelled (%s)", fr.fn))
+		}
+		ch, _ := ex.get(fr, st.Chan).(*ChanV)
+		chans = append(chans, ch)
+	}
+	ready := func() []int {
+		var r []int
+		for k, ch := range chans {
+			if t.chanReady(ex, ch) {
+				r = append(r, k)
+			}
+		}
+		return r
+	}
+	t.syncPoint(ex, "select")
+	rs := ready()
+	if len(rs) == 0 {
+		if !i.Blocking {
+			rs = nil
+		} else {
+			t.yield(ex, func() bool { return len(ready()) > 0 }, "select")
+			rs = ready()
+		}
+	}
+	idx := -1
+	if len(rs) > 0 {
+		k := 0
+		if len(rs) > 1 {
+			k = ex.Choose(len(rs)) // Go picks any ready case
+			ex.choices = append(ex.choices, ChoiceRec{Tag: fmt.Sprintf("select%d", t.switches), V: rs[k]})
+			t.switches++
+		}
+		idx = rs[k]
+	}
+	tup := i.Type().(*types.Tuple)
+	out := Tuple{IntLit(int64(idx)), tFalse}
+	for k := 2; k < tup.Len(); k++ {
+		out = append(out, zeroValue(tup.At(k).Type()))
+	}
+	return out
+}
+
+func (t *threads) access(ex *Exec, o *Object, write bool) {}
+
+func (t *threads) holdsInstanceLock(ex *Exec) bool {
+	for _, owner := range t.locks {
+		if t.cur != nil && owner == t.cur.id {
+			return true
+		}
+	}
+	return false
+}
+
+func lockKey(v Value) string {
+	p, ok := v.(Ptr)
+	if !ok || p.Obj == nil {
+		return "nil"
+	}
+	return fmt.Sprintf("%d%v", p.Obj.ID, p.Path)
+}
+
+func init() {
+	reg("(*sync.Mutex).Lock", func(ex *Exec, fn *ssa.Function, a []Value) Value {
+		if ex.thr == nil {
+			return nil
+		}
+		t := ex.thr
+		key := lockKey(a[0])
+		t.syncPoint(ex, "lock")
+		if _, held := t.locks[key]; held {
+			t.yield(ex, func() bool { _, h := t.locks[key]; return !h }, "mutex lock")
+		}
+		t.locks[key] = t.cur.id
+		return nil
+	})
+	reg("(*sync.Mutex).Unlock", func(ex *Exec, fn *ssa.Function, a []Value) Value {
+		if ex.thr == nil {
+			return nil
+		}
+		t := ex.thr
+		key := lockKey(a[0])
+		if _, held := t.locks[key]; !held {
+			ex.goPanic("sync: unlock of unlocked mutex")
+		}
+		delete(t.locks, key)
+		t.syncPoint(ex, "unlock")
+		return nil
+	})
+	// sync.WaitGroup: a counter kept in ghost state per object
+	wgKey := func(v Value) string { return "wg:" + lockKey(v) }
+	wgGet := func(ex *Exec, k string) int {
+		if v, ok := ex.ghost[k]; ok {
+			return int(v.(*Term).I.Int64())
+		}
+		return 0
+	}
+	reg("(*sync.WaitGroup).Add", func(ex *Exec, fn *ssa.Function, a []Value) Value {
+		k := wgKey(a[0])
+		ex.ghost[k] = IntLit(int64(wgGet(ex, k) + ex.concreteInt(a[1], "WaitGroup.Add")))
+		return nil
+	})
+	reg("(*sync.WaitGroup).Done", func(ex *Exec, fn *ssa.Function, a []Value) Value {
+		k := wgKey(a[0])
+		n := wgGet(ex, k) - 1
+		if n < 0 {
+			ex.goPanic("sync: negative WaitGroup counter")
+		}
+		ex.ghost[k] = IntLit(int64(n))
+		if ex.thr != nil {
+			ex.thr.syncPoint(ex, "wg.Done")
+		}
+		return nil
+	})
+	reg("(*sync.WaitGroup).Wait", func(ex *Exec, fn *ssa.Function, a []Value) Value {
+		k := wgKey(a[0])
+		if wgGet(ex, k) == 0 {
+			return nil
+		}
+		if ex.thr == nil {
+			panic(engineErr("WaitGroup.Wait would block outside concurrency mode"))
+		}
+		ex.thr.yield(ex, func() bool { return wgGet(ex, k) == 0 }, "WaitGroup.Wait")
+		return nil
+	})
+	// verifnd.Yield: an explicit scheduling point of the harness
+	reg(nd("Yield"), func(ex *Exec, fn *ssa.Function, a []Value) Value {
+		if ex.thr != nil {
+			ex.thr.syncPoint(ex, "yield")
+		}
+		return nil
+	})
+	reg(nd("Settle"), func(ex *Exec, fn *ssa.Function, a []Value) Value {
+		if ex.thr != nil {
+			// every other thread runs until it blocks: park until no other thread is enabled
+			t := ex.thr
+			me := t.cur
+			t.yield(ex, func() bool {
+				for _, th := range t.ts {
+					if th != me && !th.done && th.enabled() {
+						return false
+					}
+				}
+				return true
+			}, "settle")
+		}
+		return nil
+	})
+	reg("context.WithoutCancel", func(ex *Exec, fn *ssa.Function, a []Value) Value {
+		c := ex.newCtx(a[0])
+		c.V.(*Opaque).Attrs["nocancel"] = tTrue
+		return c
+	})
+}
